@@ -34,6 +34,12 @@ CLAIMED = {
             "identical expression on the dense array, comparing shape and bit-equal values.",
             "Trusted: torch indexing on the checker's dense contraction. Empty slices are not generated.",
             "DESIGN.md 4/C08"),
+    "C09": ("property-based testing (Hypothesis): generated cat/pad/diag/mprod/to_ttm/conj/clone calls vs. dense torch operations, bit-exact",
+            "Generated search over operation x axis/padding subset/fill value/mode list x structure x dtype with the "
+            "corresponding dense torch operation (and a dense assembly of the operator block-padding rule) as oracle, "
+            "bit-exact on integer payloads.",
+            "Trusted: torch.cat/F.pad/diag/tensordot on the checker's dense contraction.",
+            "DESIGN.md 4/C09"),
 }
 
 NOT_YET = {}
